@@ -117,7 +117,7 @@ CLAIMED["C10"]["technique"] = "Coq structural-induction proofs over hand models 
 CLAIMED.update({
  "C01": dict(
    technique="Executable Coq model of every Simplifier.walk_* rule and of the FormulaManager constructors, tied to the code on every run by exact structural comparison inside Coq (~25k quick / ~130k thorough cases, all 65 operators, BV widths 1-4 exhaustive) with a permutation-checked order oracle for node-id-dependent orders; Coq proofs for every oracle: no new symbols (all operators), and type+value preservation against core/Sem.v by induction over terms with one lemma per rule on the fragment stated in props/C01.v; independent reference evaluator as search oracle for the rest",
-   text="PARTIAL. coq/props/C01.v: for all terms, `fv (simplify t)` is included in `fv t` (function names included); constants are fixed points; constant arguments fold to constants for the listed operators; and `C01_simplify_sound_partial`: for every order oracle, every term of the fragment `in_frag` (see the props file for its current extent: Boolean connectives, ITE, Equals, symbols, constants, function applications, quantifiers, and the arithmetic/bit-vector stages as they are completed), every well-formed interpretation and every division-safe term, the simplified term has the same type and the same value. Operators outside the proved fragment are modelled and correspondence-checked, and type/value preservation is decided for them by the independent evaluator on generated inputs.",
+   text="coq/props/C01.v: for all terms, `fv (simplify t)` is included in `fv t` (function names included); constants are fixed points; constant arguments fold to constants for the listed operators; and `C01_simplify_sound_partial`: for every order oracle, every term of `in_frag`, every well-formed interpretation and every division-safe term, the simplified term has the same type and the same value - by induction over terms with one lemma per rewrite rule, covering Boolean connectives, ITE, Equals, quantifiers, UF, Int/Real arithmetic (incl. Div, ToReal, Pow with non-negative integer exponent), EVERY bit-vector operator at every width, arrays (select/store/array values in canonical form, array equalities) and all string operators; `C01_fold_complete_partial`: closed UF-free qf terms over the Boolean/arithmetic/bit-vector operators simplify to a constant. `in_frag` leaves out only Pow with a negative/non-integer/non-constant exponent and array values outside the canonical form (Real index/element sorts, non-constant or unsorted indices); those are modelled, correspondence-checked and decided by the independent evaluator.",
    note="Trusted: Coq kernel, core/Sem.v (standard-library classical/real axioms as reported), hand models tied by exact correspondence, the observed-order oracle (accepted only when it is a permutation of the model's own result), harness/tocoq.py, harness/refeval.py. Open findings: Pow with 0 base and negative exponent raises; Pow with non-integer exponent goes through floats.",
    design="4 C01"),
  "C02": dict(
